@@ -119,7 +119,11 @@ def matrix(names):
             meta = {'property': n.split('-')[0]}
         else:
             continue
-        rc, out = run(n, meta['property'], ['--tier', 'quick'])
+        try:
+            rc, out = run(n, meta['property'], ['--tier', 'quick'])
+        except SystemExit as e:
+            print('%-28s %s PATCH-STALE %s' % (n, meta['property'], str(e)[:80].replace('\n', ' ')))
+            continue
         keys = sorted(set(l.split('key=')[1].split(' ')[0] for l in out.splitlines() if l.startswith('VIOLATION')))
         print('%-28s %s rc=%d %s' % (n, meta['property'], rc, 'CAUGHT ' + ','.join(keys) if rc == 1 else 'MISSED'))
         sys.stdout.flush()
